@@ -12,7 +12,7 @@ from simfile.timing import Beat, TimingData  # noqa: E402
 from simfile.timing.engine import EventTag, TimingEngine  # noqa: E402
 
 TAGS = [EventTag(t) for t in T.TAGS]
-KINDS = ("bR", "bD", "S", "D", "W1", "W2", "W3")
+KINDS = ("bR", "bD", "S", "D", "W1", "W2", "W3")  # plus "W0" (see all_events) in the tiny-warp layer
 TICK = Fraction(1, 48)
 
 # grids: name -> (origin, step)
@@ -48,8 +48,12 @@ def family(name, seed=0):
     }
 
 
-def all_events(grid):
-    evs = []
+TINY_WARP = Fraction(1, 100)  # a positive warp length that snaps to zero ticks
+
+
+def all_events(grid, tiny=False):
+    """tiny: the list starts with a warp of TINY_WARP beats at each grid point (kind 'W0')."""
+    evs = [(g, "W0") for g in range(4)] if tiny else []
     for g in range(4):
         for k in KINDS:
             if k in ("bR", "bD") and g == 0 and GRIDS[grid][0] == 0:
@@ -98,6 +102,8 @@ def concretize(grid, events, fam, offset=Fraction(0), extra_bpms=()):
             stops.append((beat, fam["stops"][g]))
         elif k == "D":
             delays.append((beat, fam["delays"][g]))
+        elif k == "W0":
+            warps.append((beat, TINY_WARP))
         else:
             warps.append((beat, int(k[1]) * step))
     for b in extra_bpms:
